@@ -172,6 +172,9 @@ func Matches(s, alphabet string) bool {
 func Note(key, val string) { mu.Lock(); notes[key] = val; mu.Unlock() }
 func AllowPanic()          {}
 
+// Quiesce lets every other goroutine run until none is runnable (native: no-op).
+func Quiesce() {}
+
 // CountCalls/Calls: engine-side call counters (native: always 0, so bounds hold trivially).
 func CountCalls(fn string) {}
 func Calls(fn string) int { return 0 }
